@@ -15,7 +15,8 @@ Inductive oevent :=
 | OPersist (n : N)                (* the requested snapshot was written *)
 | ORestore (n src k lbl : N)      (* FSM.Restore on n of snapshot k of src, labelled with log position lbl by Raft *)
 | ORestart (n : N)
-| OAck (c n : N)                  (* LogPin/LogUnpin of command c returned nil; node n ran CommitOp *)
+| OAck (c n : N)                  (* LogPin/LogUnpin of command c returned nil; n = the member whose CommitOp returned nil (the
+                                     leader of the moment: the caller itself, or the member a follower's call was redirected to) *)
 | OObs (n : N) (o : option (list pin))   (* Consensus.State on n: None = error, Some = List(), sorted by cid *)
 | OTrk (n : N) (cs : list tcall)  (* every PinTracker call node n's RPC server received so far *)
 | OOffline (n : N) (l : list pin)    (* OfflineState of n's data *)
@@ -54,7 +55,22 @@ Definition cmd_of (cmds : list logop) (c : N) : logop := nth (N.to_nat c) cmds L
 
 (* ---- pass 1: the model follows the observed schedule ---- *)
 Definition nn := N.to_nat.
-Definition model_step (cmds : list logop) (cl : cluster) (e : oevent) : cluster * bool :=
+
+(* acknowledgement. consensus/raft/consensus.go commit: `_, finalErr = cc.consensus.CommitOp(op)` runs on the member that finds
+   itself leader (a follower's LogPin/LogUnpin is an RPC to the leader's LogPin/LogUnpin and returns what that returns);
+   go-libp2p-raft actor.commitOp: `applyFuture := actor.Raft.Apply(bs, ..); err = applyFuture.Error()`; hashicorp/raft answers
+   the future of a LogCommand from runFSM, after `r.fsm.Apply(req.log)` has returned on THAT member (processLog hands the future
+   to the FSM goroutine: "the future is only responded to by the FSM handler when the application is done"). So a nil return
+   means: the entry is in the committed log and the FSM of the member that ran CommitOp has been given it.
+   [acked lg a c]: command c sits in the committed sequence lg at a position below a (a = what the committer has applied). *)
+Definition acked (lg : list N) (a : nat) (c : N) : bool :=
+  existsb (fun j => nth j lg 0 =? c) (seq 0 (Nat.min a (length lg))).
+
+(* the committed sequence as command numbers (the model's log holds the operations themselves) *)
+Definition log_step (cmds : list logop) (lg : list N) (e : oevent) : list N :=
+  match e with OCommit c => if accepts (cmd_of cmds c) then lg ++ [c] else lg | _ => lg end.
+
+Definition model_step (cmds : list logop) (lg : list N) (cl : cluster) (e : oevent) : cluster * bool :=
   match e with
   | OCommit c => (step cl (MCommit (cmd_of cmds c)), accepts (cmd_of cmds c))   (* LogPin lets no unserialisable pin into the log *)
   | OApply n j =>
@@ -73,7 +89,7 @@ Definition model_step (cmds : list logop) (cl : cluster) (e : oevent) : cluster 
        match nth_error (snaps (getn (nn src) cl)) (nn k) with Some s => Nat.eqb (fst s) (nn lbl) | None => false end
        && ev_forward cl (MRestore (nn n) (nn src) (nn k)))          (* the assumption about hashicorp/raft holds on this trace *)
   | ORestart n => (step cl (MRestart (nn n)), true)
-  | OAck _ _ => (cl, true)
+  | OAck c n => (cl, acked lg (applied (getn (nn n) cl)) c)          (* enabled only once the committer's FSM was given the entry *)
   | OObs n o =>
       (cl, negb (crashed (getn (nn n) cl)) &&
            match view (getn (nn n) cl), o with
@@ -101,12 +117,12 @@ Definition model_step (cmds : list logop) (cl : cluster) (e : oevent) : cluster 
            | _, _ => false
            end)
   end.
-Fixpoint model_run (cmds : list logop) (cl : cluster) (es : list oevent) : bool :=
+Fixpoint model_run (cmds : list logop) (lg : list N) (cl : cluster) (es : list oevent) : bool :=
   match es with
   | [] => true
-  | e :: r => let '(cl', ok) := model_step cmds cl e in ok && model_run cmds cl' r
+  | e :: r => let '(cl', ok) := model_step cmds lg cl e in ok && model_run cmds (log_step cmds lg e) cl' r
   end.
-Definition model_eqb (k : N) (cmds : list logop) (es : list oevent) : bool := model_run cmds (init (nn k)) es.
+Definition model_eqb (k : N) (cmds : list logop) (es : list oevent) : bool := model_run cmds [] (init (nn k)) es.
 
 (* ---- pass 2: the property on the observations alone ---- *)
 (* what the observations say about each node: next position, positions applied so far, labels of its snapshots *)
@@ -143,7 +159,7 @@ Definition spec_step (cmds : list logop) (lg : list N) (sn : list snode) (e : oe
       (lg, supd (nn n) (fun s => mksnode (nn lbl) (s_hist s) (s_pending s) (s_labels s)) sn, Nat.leb (nn lbl) (length lg))
   | ORestart n => (lg, supd (nn n) (fun s => mksnode 0 (s_hist s) None (s_labels s)) sn, true)
   | OAck c n =>                                                                         (* acknowledged: in the sequence and visible on the committer *)
-      (lg, sn, existsb (fun j => nth j lg 0 =? c) (seq 0 (Nat.min (s_applied (sgetn (nn n) sn)) (length lg))))
+      (lg, sn, acked lg (s_applied (sgetn (nn n) sn)) c)
   | OObs n o =>                                                                         (* some prefix, not shorter than what the node was given; *)
       (lg, sn, match o with                                                             (* caught up (applied = all) => the whole sequence *)
                | Some l => let a := s_applied (sgetn (nn n) sn) in
@@ -187,19 +203,32 @@ Definition spec_okb (k : N) (cmds : list logop) (es : list oevent) : bool :=
 (* S19: some submitted pin carries origins (undecodable from msgpack) *)
 Definition is_S19 (cmds : list logop) : bool :=
   existsb (fun op => match pin_of op with Some p => negb (wire_ok p) | None => false end) cmds.
-(* S23: some replica restored a snapshot that was persisted after entries had been applied past its label *)
+(* S23: a snapshot that was persisted after its replica had been given something (an entry, or another snapshot) past the
+   FSM.Snapshot that labelled it is "late": Persist wrote the state it found when it ran. The shape: some replica restores a late
+   snapshot (install or start-up), or OfflineState is read on a replica whose newest snapshot is late.
+   pend: replicas between FSM.Snapshot and Persist, with "was given something since"; cnt: snapshots persisted per replica;
+   late: the late snapshots (replica, number). *)
+Definition cnt_of (n : N) (cnt : list (N * N)) : N := match aget n cnt with Some x => x | None => 0 end.
+Definition is_late (late : list (N * N)) (n k : N) : bool := existsb (fun x => (fst x =? n) && (snd x =? k)) late.
+Definition touch (n : N) (pend : list (N * bool)) : list (N * bool) :=
+  match aget n pend with Some _ => aput n true pend | None => pend end.
+Definition late_step (pend : list (N * bool)) (cnt late : list (N * N)) (e : oevent)
+  : list (N * bool) * list (N * N) * list (N * N) * bool :=
+  match e with
+  | OSnapReq n true => (aput n false pend, cnt, late, false)
+  | OApply n _ => (touch n pend, cnt, late, false)
+  | OPersist n =>
+      let k := cnt_of n cnt in
+      (adel n pend, aput n (k + 1) cnt, match aget n pend with Some true => (n, k) :: late | _ => late end, false)
+  | ORestart n => (adel n pend, cnt, late, false)
+  | ORestore n src k _ => (touch n pend, cnt, late, is_late late src k)
+  | OOffline n _ => (pend, cnt, late, let k := cnt_of n cnt in (0 <? k) && is_late late n (k - 1))
+  | _ => (pend, cnt, late, false)
+  end.
 Fixpoint late_restore (pend : list (N * bool)) (cnt : list (N * N)) (late : list (N * N)) (es : list oevent) : bool :=
   match es with
   | [] => false
-  | OSnapReq n true :: r => late_restore (aput n false pend) cnt late r
-  | OApply n _ :: r => late_restore (match aget n pend with Some _ => aput n true pend | None => pend end) cnt late r
-  | OPersist n :: r =>
-      let k := match aget n cnt with Some x => x | None => 0 end in
-      late_restore (adel n pend) (aput n (k + 1) cnt)
-                   (match aget n pend with Some true => (n, k) :: late | _ => late end) r
-  | ORestart n :: r => late_restore (adel n pend) cnt late r
-  | ORestore _ src k _ :: r => existsb (fun x => (fst x =? src) && (snd x =? k)) late || late_restore pend cnt late r
-  | _ :: r => late_restore pend cnt late r
+  | e :: r => let '(pend', cnt', late', f) := late_step pend cnt late e in if f then true else late_restore pend' cnt' late' r
   end.
 Definition tag_of (cmds : list logop) (es : list oevent) : N :=
   if is_S19 cmds then 1 else if late_restore [] [] [] es then 3 else 0.
